@@ -4,7 +4,7 @@ W=${W:-/tmp/w1}; B=${3:-25000}
 cd $W
 for prop in $1; do
   for seed in $2; do
-    ( GOLOG_LOG_LEVEL=fatal VERIF_ANYPROP=${ANY:-1} VERIF_PROP=$prop VERIF_SEED=$seed VERIF_BUDGET_MS=$B VERIF_MIN_MS=$((B-5000)) VERIF_MAXRUNS=${MAXRUNS:-300} VERIF_KNOWN=/verif/known_findings.json VERIF_REPLAY_DIR=$W/replays ./sim.test -test.run '^TestWorker$' 2>&1 | python3 -c "
+    ( GOLOG_LOG_LEVEL=fatal VERIF_ANYPROP=${ANY-1} VERIF_PROP=$prop VERIF_SEED=$seed VERIF_BUDGET_MS=$B VERIF_MIN_MS=$((B-5000)) VERIF_MAXRUNS=${MAXRUNS:-300} VERIF_KNOWN=/verif/known_findings.json VERIF_REPLAY_DIR=$W/replays ./sim.test -test.run '^TestWorker$' 2>&1 | python3 -c "
 import sys,json
 for l in sys.stdin:
     if l.startswith('{'):
